@@ -146,10 +146,11 @@ for l in open('/verif/properties.jsonl'):
 BASIC_SRC = 'THE MODEL OF THE THREE BASIC CLASSES IS THE SOURCE: GenBasic.prog_of c is the program (deep-embedded generator language GenLang) that harness/translate.py produces from the _iterator method of NoneCheckpointSchedule / SingleMemoryStorageSchedule / SingleDiskStorageSchedule; Gen/BasicGen.v re-translates the current source on every run and proves it equal to that term by conversion.  Resuming that program request by request (GenLang.run = next() on the suspended generator; finalize = the base-class method on the attributes) from the freshly constructed object gives, under EVERY history of next() and finalize(k) calls, exactly the observations (outcome, n, r, max_n, is_exhausted) of the hand-written model Online.run_ops -- so the theorems of this file about these three classes, stated on the extracted model, are theorems about the translated source'
 TWO_SRC = 'THE MODEL OF TwoLevelCheckpointSchedule IS THE SOURCE: GenTwo.two_prog_model is the program (generator language GenLang2: named locals, the snapshots stack, //, *, min, n_advance, assert, del) that harness/translate.py produces from TwoLevelCheckpointSchedule._iterator; Gen/TwoLevelGen.v re-translates the current source on every run and proves it equal to that term by conversion.  Resuming that program request by request from the freshly constructed object gives, for every period, unit count, storage and trajectory the constructor accepts and under EVERY history of next() and finalize(k) calls, exactly the observations (outcome, n, r, max_n, is_exhausted) of the hand-written machine Online.run_ops (class KTwo) -- so the TwoLevel theorems of this file, stated on the extracted model, are theorems about the translated source (n_advance itself is tied by Gen/NAdvanceGen.v)'
 MULTI_SRC = 'THE MODEL OF MultistageCheckpointSchedule IS THE SOURCE: GenMulti.multi_prog_model is the program (generator language GenLang3) that harness/translate.py produces from MultistageCheckpointSchedule._iterator, the nested helper write(n) inlined at its two call sites; Gen/MultistageGen.v re-translates the current source on every run and proves it equal to that term by conversion.  For every parameter tuple the constructor accepts, resuming that program request by request gives under EVERY history of next() and finalize(k) calls exactly the observations (outcome, n, r, max_n, is_exhausted) of the schedule object of Model/Sched.v (srun_ops: Sched.next / Sched.finalize on the Multistage machine) -- so the Multistage theorems of this file, stated on the extracted model, are theorems about the translated source.  (The unit total self._snapshots_in_ram + self._snapshots_on_disk is read as the length of the label tuple self._storage, which is what __init__ recounts them from; the allocation of the labels, allocate_snapshots, is tied by the correspondence.)'
+CONV_SRC = 'THE CONVERTER OF THE FOUR REVOLVE-FAMILY CLASSES IS THE SOURCE: GenConv.conv_prog_model is the program (generator language GenLang4: the operation list with Python indexing, _convert_action, integer / boolean / storage / type-name locals, the set snapshots) that harness/translate.py produces from RevolveCheckpointSchedule._iterator; Gen/ConverterGen.v re-translates the current source on every run and proves it equal to that term by conversion (and Gen/ConvertGen.v does the same for _convert_action).  For Revolve, DiskRevolve, PeriodicDiskRevolve and HRevolve alike, every accepted parameter tuple and every history of next() and finalize(k) calls: as long as the hand-written machine (RevConv.next on the operation list of the class) does not raise, resuming the translated program gives exactly its observations (outcome, n, r, max_n, is_exhausted) -- raise_free is what the run theorems of this file establish for the four classes; after an exception the two may differ in n (the hand-written machine reports the error before it commits the updates of that iteration).  The operation list itself (the sequence generators) is tied by the correspondence'
 files = {}
 for pid, cls in [('C01','C01'),('C02','C02'),('C03','C03'),('C04','C04'),('C08','C08'),('C12','C12')]:
     body = HEAD % (pid, TITLES[pid]) + safety(pid, cls, '')
-    body = body.replace("From CS Require Import Actions", "From CS Require Ops RevConv RevBridge4 RevolveRun Refuted DiskRun DiskBridge3 HRevRun HRevTop GenLang GenBasic GenLang2 GenTwo GenLang3 GenMulti.\nFrom CS Require Import Actions")
+    body = body.replace("From CS Require Import Actions", "From CS Require Ops RevConv RevBridge4 RevolveRun Refuted DiskRun DiskBridge3 HRevRun HRevTop GenLang GenBasic GenLang2 GenTwo GenLang3 GenMulti GenLang4 GenConv.\nFrom CS Require Import Actions")
     if pid != 'C04':
         body += disk_safety(pid, cls)
         body += hrev_safety(pid, cls)
@@ -185,6 +186,7 @@ Print Assumptions C04_hrevolve_only_leftover_partial.
     body += lifted('%s_basic_source_is_model' % pid, 'GenBasic', 'basic_from_start', BASIC_SRC)
     body += lifted('%s_twolevel_source_is_model' % pid, 'GenTwo', 'two_from_start', TWO_SRC)
     body += lifted('%s_multistage_source_is_model' % pid, 'GenMulti', 'multi_from_start', MULTI_SRC)
+    body += lifted('%s_revolve_family_converter_is_source' % pid, 'GenConv', 'conv_from_start', CONV_SRC)
     files[pid] = body
 
 
@@ -276,10 +278,11 @@ Proof. exact twolevel_run. Qed.
 Print Assumptions C09_twolevel_passes.
 
 """
-mk('C09', ['MSTerm','OnlineFlags','Flags','RevConv','RevBridge4','RevolveRun','PassRepeat','Online','DiskRun','DiskBridge3','HRevRun','HRevTop','GenLang','GenBasic','GenLang2','GenTwo','GenLang3','GenMulti'], [
+mk('C09', ['MSTerm','OnlineFlags','Flags','RevConv','RevBridge4','RevolveRun','PassRepeat','Online','DiskRun','DiskBridge3','HRevRun','HRevTop','GenLang','GenBasic','GenLang2','GenTwo','GenLang3','GenMulti','GenLang4','GenConv'], [
    lifted('C09_basic_source_is_model','GenBasic','basic_from_start',BASIC_SRC),
    lifted('C09_twolevel_source_is_model','GenTwo','two_from_start',TWO_SRC),
    lifted('C09_multistage_source_is_model','GenMulti','multi_from_start',MULTI_SRC),
+   lifted('C09_revolve_family_converter_is_source','GenConv','conv_from_start',CONV_SRC),
    lifted('C09_flags','Flags','C09_flags','FLAGS, all thirteen classes, every parameter tuple the constructor accepts, every history of next() / finalize(k) requests (ops), any executor parameters: before the first request is_exhausted = is_running = False; after every next() is_running = True; is_exhausted after a request = (the final action of the class has been yielded so far) -- final_action: EndForward for None, EndReverse for the offline classes and SingleDisk(move), none for SingleMemory, SingleDisk(copy), TwoLevel; no action is yielded once the final action has been seen (only StopIteration / an exception), and finalize never changes the flag. flags_hist is the trace rule, defined in Proofs/OnlineFlags.v'),
    C09_runs,
    lifted('C09_multistage_flags_on_runs','MultistageRun','multistage_flags','the same rule read on the raise-free Multistage runs of the run theorem (every line: is_running, and is_exhausted = (the action is EndReverse), StopIteration only with is_exhausted)'),
